@@ -12,6 +12,7 @@ RULE = ("Hypothesis-generated control schedules: superoperators from {unitary ki
         "non-trace-preserving left/right/left-right multiplication, identity}, steps 0..N (first and last included), "
         "pre/post flag, int step or float time (offset <= 0.4 dt from the step, start_time != 0), 1..3 controls stacked "
         "on the same (step, side); single systems with no or one exact ancilla environment (compute_dynamics, record_all on/off, "
+        "a Control object that was already used in a computation before its last operations were added, "
         "compute_dynamics_with_field with one system and with TWO systems carrying different schedules in either order, the "
         "dynamics reported by compute_gradient_and_dynamics) and "
         "chains of 2..3 sites (PtTebd + ChainControl; uncoupled, two-site coupled, with ancilla process tensors). "
@@ -76,7 +77,9 @@ def s_single(draw, tier):
             "sys": draw(sysgen.sys_spec(d)), "rho0": draw(gens.dm_spec(d)), "env": env,
             "groups": draw(s_groups(d, N)),
             # mean-field route with a SECOND system that carries another control schedule (or none)
-            "groups2": draw(st.one_of(st.none(), s_groups(d, N))), "second_first": draw(st.booleans())}
+            "groups2": draw(st.one_of(st.none(), s_groups(d, N))), "second_first": draw(st.booleans()),
+            # the Control object has been used in a computation when only its first `used_after` operations had been added
+            "used_after": draw(st.one_of(st.none(), st.integers(0, 4)))}
 
 
 def _build_control(groups, d, t0, dt):
@@ -120,8 +123,20 @@ def run_single(case):
     envs = [ancgen.build_env(case["env"], d, N, dt=dt)] if case["env"] else []
     ctl = oqupy.Control(d)
     ref = {}
+    n_added = 0
+    used_after = case.get("used_after")
     for g in case["groups"]:
         for j, o in enumerate(g["ops"]):
+            if used_after is not None and n_added == used_after:
+                # an earlier computation with the controls added so far (result not needed)
+                out.label("control-used-before-complete")
+                if envs:
+                    oqupy.compute_dynamics(system, rho0, process_tensor=envs[0]["pt"], start_time=t0, control=ctl,
+                                           subdiv_limit=sysgen.subdiv_limit(case["sys"]), progress_type="silent")
+                else:
+                    oqupy.compute_dynamics(system, rho0, dt=dt, num_steps=N, start_time=t0, control=ctl,
+                                           subdiv_limit=sysgen.subdiv_limit(case["sys"]), progress_type="silent")
+            n_added += 1
             S = ancgen.build_control_op(o, d)
             kind_j = g["op_kinds"][j] if g["kind"] == "mixed" else g["kind"]
             if kind_j == "int":
